@@ -58,7 +58,7 @@ def _spec_const_str(expr):
 
 def load_flow(flow_config, flow_index, internal_all):
     """Returns (elems, label_index) where elems is a list of tuples:
-       ('block',) ('waitint', started_making) ('maybe',) ('jump', l, cond) ('label', l, newinst)
+       ('block', 'match'|'action'|'merge') ('waitint', started_making) ('maybe',) ('jump', l, cond) ('label', l, newinst)
        ('step',) ('start', f, act) ('fork', [l]) ('return',) ('abort',) ('catch', l|None)
        ('break', l|None)
     Labels are numbered by first occurrence (as Label, Goto, Fork, Catch or Break target)."""
@@ -82,12 +82,12 @@ def load_flow(flow_config, flow_index, internal_all):
                     if spec.name in internal_all or spec.name == "ColangError":
                         out.append(("waitint", "internal" not in el.info))
                     else:
-                        out.append(("block",))
+                        out.append(("block", "match"))
                 elif spec.var_name is None and spec.members is not None:
                     if spec.spec_type == A.SpecType.FLOW:
                         out.append(("waitint", "internal" not in el.info))
                     else:
-                        out.append(("block",))
+                        out.append(("block", "match"))
                 else:
                     out.append(("waitint", "internal" not in el.info))   # $ref.Event(): flow or action reference
             elif el.op == "send":
@@ -100,7 +100,7 @@ def load_flow(flow_config, flow_index, internal_all):
                         else:
                             out.append(("step",))
                     else:
-                        out.append(("block",))          # action / umim event: actionable, slide stops
+                        out.append(("block", "action"))  # action / umim event: actionable, slide stops
                 else:
                     out.append(("maybe",))              # event of a reference: internal (falls through) or action (stops)
             elif el.op == "_new_action_instance":
@@ -114,7 +114,7 @@ def load_flow(flow_config, flow_index, internal_all):
         elif isinstance(el, A.ForkHead):
             out.append(("fork", [lab(x) for x in el.labels]))
         elif isinstance(el, A.MergeHeads):
-            out.append(("block",))
+            out.append(("block", "merge"))
         elif isinstance(el, A.WaitForHeads):
             out.append(("maybe",))
         elif isinstance(el, (A.Assignment, A.Log, A.Print, A.Priority, A.Global, A.BeginScope, A.EndScope)):
@@ -127,6 +127,9 @@ def load_flow(flow_config, flow_index, internal_all):
             out.append(("break", None if el.label is None else lab(el.label)))
         elif isinstance(el, A.CatchPatternFailure):
             out.append(("catch", None if el.label is None else lab(el.label)))
+        elif isinstance(el, dict) and (el.get("_type") == "doc_string_stmt" or
+                                       (el.get("_type") == "stmt" and not el.get("elements"))):
+            out.append(("step",))                   # slide's final `else`: ignored, position += 1
         else:
             raise LoaderError(f"element outside the vocabulary: {type(el).__name__} in {flow_config.id}")
     return out, labels
@@ -135,7 +138,7 @@ def load_flow(flow_config, flow_index, internal_all):
 def coq_elem(t):
     k = t[0]
     if k == "block":
-        return "EBlock"
+        return "(EBlock %s)" % {"match": "BMatch", "action": "BAction", "merge": "BMerge"}[t[1]]
     if k == "waitint":
         return f"(EWaitInt {C.coq_bool(t[1])})"
     if k == "maybe":
@@ -178,62 +181,107 @@ def label_table(elems):
     return tbl
 
 
-def py_succs(elems, p, through_int=False):
-    if p >= len(elems):
-        return []
+def py_exec(elems, tbl, p, stack, o):
+    """One element under outcome o (True/False): ('cont', p', stack') | ('stop', resume_configs).
+    Written from the element cases of statemachine.slide, independently of the Coq model."""
     t = elems[p]
     k = t[0]
-    tbl = label_table(elems)
-    if k == "block":
-        return []
-    if k == "waitint":
-        return [p + 1] if through_int else []
-    if k in ("maybe", "label", "step", "start"):
-        return [p + 1]
+    if k in ("block", "waitint"):
+        return ("stop", [(p + 1, stack)])
+    if k == "maybe":
+        return ("cont", p + 1, stack) if o else ("stop", [(p + 1, stack)])
     if k == "jump":
-        tgt = tbl[t[1]] + 1 if t[1] in tbl else p + 1
-        return [tgt] + ([p + 1] if t[2] else [])
+        taken = o if t[2] else True
+        if taken:
+            return ("cont", tbl[t[1]] + 1 if t[1] in tbl else p + 1, stack)
+        return ("cont", p + 1, stack)
+    if k in ("label", "step", "start"):
+        return ("cont", p + 1, stack)
     if k == "fork":
-        return [tbl[l] + 1 for l in t[1] if l in tbl] if through_int else []
+        if all(l in tbl for l in t[1]):
+            return ("stop", [(tbl[l] + 1, stack) for l in t[1]])
+        return ("stop", [(tbl[l] + 1, stack) for l in t[1] if l in tbl])
     if k == "return":
-        return []
+        return ("stop", [])
     if k == "abort":
-        return [tbl[x[1]] + 1 for x in elems if x[0] == "catch" and x[1] is not None and x[1] in tbl]
+        if not stack:
+            return ("stop", [])
+        top = stack[-1]
+        return ("cont", tbl[top] + 1, stack) if top in tbl else ("stop", [])
     if k == "catch":
-        return [p + 1]
+        if t[1] is not None:
+            return ("cont", p + 1, stack + (t[1],))
+        return ("cont", p + 1, stack[:-1]) if stack else ("stop", [])
     if k == "break":
         if t[1] is None:
-            return [p + 1]
-        return [tbl[t[1]] + 1] if t[1] in tbl else []
+            return ("cont", p + 1, stack)
+        return ("cont", tbl[t[1]] + 1, stack) if t[1] in tbl else ("stop", [])
     raise ValueError(k)
 
 
-def py_find_cycle(elems, through_int=False):
-    """None if acyclic, else a list of positions forming a cycle (iterative DFS, colours)."""
+def py_analyse(elems, through_int=False):
+    """Explore the configurations (position, catch stack) reachable from the flow start and look for a
+    cycle made of steps the same slide (or, through_int, the same event cascade) can take.
+    Returns {"verdict": bool, "cycle": [(p, stack)] | None, "why": str}."""
     n = len(elems)
-    colour = [0] * (n + 1)
-    for root in range(n):
-        if colour[root]:
+    tbl = label_table(elems)
+    start = (0, ())
+    seen = {start}
+    todo = [start]
+    edges = {}
+    per_pos = {}
+    limit = 40 * (n + 1)
+    while todo:
+        cfg = todo.pop()
+        p, stack = cfg
+        if p >= n:
             continue
-        stack = [(root, iter(py_succs(elems, root, through_int)))]
+        per_pos.setdefault(p, set()).add(stack)
+        outs = []
+        nxt = []
+        for o in (True, False):
+            r = py_exec(elems, tbl, p, stack, o)
+            if r[0] == "cont":
+                outs.append((r[1], r[2]))
+                nxt.append((r[1], r[2]))
+            else:
+                nxt += r[1]
+                wakes = elems[p][0] in ("waitint", "maybe", "fork") or (elems[p][0] == "block" and elems[p][1] != "match")
+                if through_int and wakes:
+                    outs += r[1]
+        edges[cfg] = list(dict.fromkeys(outs))
+        for c in nxt:
+            if c not in seen:
+                seen.add(c)
+                todo.append(c)
+        if len(seen) > limit:
+            return {"verdict": False, "cycle": None, "why": "configuration space too large (unbounded catch stack?)"}
+    if any(len(v) > 1 for v in per_pos.values()):
+        return {"verdict": False, "cycle": None, "why": "a position is reached with two different catch stacks"}
+    colour = {}
+    for root in sorted(edges):
+        if root in colour:
+            continue
+        stack_ = [(root, iter(edges.get(root, [])))]
         colour[root] = 1
         path = [root]
-        while stack:
-            node, it = stack[-1]
-            nxt = next(it, None)
-            if nxt is None:
+        while stack_:
+            node, it = stack_[-1]
+            q = next(it, None)
+            if q is None:
                 colour[node] = 2
-                stack.pop()
+                stack_.pop()
                 path.pop()
                 continue
-            q = min(nxt, n)
-            if colour[q] == 1:
-                return path[path.index(q):]
-            if colour[q] == 0:
+            if q[0] >= n:
+                continue
+            if colour.get(q) == 1:
+                return {"verdict": False, "cycle": path[path.index(q):], "why": "cycle without blocking element"}
+            if q not in colour:
                 colour[q] = 1
                 path.append(q)
-                stack.append((q, iter(py_succs(elems, q, through_int))))
-    return None
+                stack_.append((q, iter(edges.get(q, []))))
+    return {"verdict": True, "cycle": None, "why": ""}
 
 
 def spin_oracle(elems, cycle):
@@ -241,14 +289,10 @@ def spin_oracle(elems, cycle):
     tbl = label_table(elems)
     outs = []
     m = len(cycle)
-    for idx, p in enumerate(cycle):
+    for idx, (p, stack) in enumerate(cycle):
         q = cycle[(idx + 1) % m]
-        t = elems[p]
-        if t[0] == "jump":
-            tgt = tbl[t[1]] + 1 if t[1] in tbl else p + 1
-            outs.append("OTrue" if q == tgt else "OFalse")
-        else:
-            outs.append("OTrue")
+        r = py_exec(elems, tbl, p, stack, True)
+        outs.append("OTrue" if r[0] == "cont" and (r[1], r[2]) == q else "OFalse")
     return outs
 
 
@@ -526,6 +570,72 @@ def run_case_pe(sm, tracer, counter, case):
         for fs in state.flow_states.values():
             fl.setdefault(fs.flow_id, []).append(fs.status.name)
         res["flows"] = fl
+    return res
+
+
+
+def shipped_dirs():
+    """Every directory of the repository that contains .co files (library, examples, tests)."""
+    dirs = set()
+    for root, _d, files in os.walk(C.REPO):
+        if "/.git" in root or "/node_modules" in root:
+            continue
+        if any(f.endswith(".co") for f in files):
+            dirs.add(os.path.relpath(root, C.REPO))
+    return sorted(dirs)
+
+
+def run_case_shipped(sm, case):
+    """Load shipped Colang 2 flows with the repository's own parser + expansion and map them to
+    model elements.  Returns per flow the loaded elements (or the loader error)."""
+    import glob
+
+    from nemoguardrails import RailsConfig
+    from nemoguardrails.colang.v2_x.runtime.flows import InternalEvents, State
+    from nemoguardrails.colang.v2_x.runtime.runtime import create_flow_configs_from_flow_list
+
+    res = {"id": case["id"], "mode": "shipped", "flows": [], "skipped": [], "error": None}
+
+    def load_config(config, origin):
+        if getattr(config, "colang_version", "1.0") != "2.x":
+            res["skipped"].append([origin, "colang 1.0"])
+            return
+        fcs = create_flow_configs_from_flow_list(config.flows)
+        state = State(flow_states={}, flow_configs=fcs)
+        idx = {fid: i for i, fid in enumerate(fcs)}
+        for fid, fc in fcs.items():
+            try:
+                sm.initialize_flow(state, fc)
+            except Exception as e:
+                res["skipped"].append([origin + "::" + fid, "expand:" + type(e).__name__ + ":" + str(e)[:80]])
+                continue
+            try:
+                elems, _labels = load_flow(fc, idx, set(InternalEvents.ALL))
+            except LoaderError as e:
+                res["flows"].append({"origin": origin, "flow": fid, "loader_error": str(e)})
+                continue
+            res["flows"].append({"origin": origin, "flow": fid, "elems": elems,
+                                 "lib": bool(fc.source_file and "colang/v2_x/library" in str(fc.source_file))})
+
+    for rel in case["paths"]:
+        d = os.path.join(C.REPO, rel)
+        ymls = glob.glob(os.path.join(d, "*.yml")) + glob.glob(os.path.join(d, "*.yaml"))
+        is_v2 = any("2.x" in open(y, errors="replace").read() for y in ymls)
+        try:
+            if ymls and is_v2:
+                load_config(RailsConfig.from_path(d), rel)
+            elif ymls:
+                res["skipped"].append([rel, "colang 1.0 config"])
+            else:
+                for co in sorted(glob.glob(os.path.join(d, "*.co"))):
+                    origin = os.path.relpath(co, C.REPO)
+                    try:
+                        txt = open(co, errors="replace").read()
+                        load_config(RailsConfig.from_content(colang_content=txt, yaml_content="colang_version: 2.x\n"), origin)
+                    except Exception as e:
+                        res["skipped"].append([origin, "parse:" + type(e).__name__])
+        except Exception as e:
+            res["skipped"].append([rel, "load:" + type(e).__name__ + ":" + str(e)[:80]])
     return res
 
 
@@ -1022,6 +1132,358 @@ def inject_verdict(case, r):
     if "STOPPED" not in fl.get(target, []):
         bad.append(("faulty-flow-did-not-fail", f"flow `{target}` statuses {fl.get(target)}"))
     return bad
+
+
+
+# =======================================================================================
+# the check
+
+
+def _flow_defs(programs):
+    """Coq definitions for distinct element lists; returns (text, name_of(json_key))."""
+    names = {}
+    lines = []
+    for elems in programs:
+        key = json.dumps(elems)
+        if key not in names:
+            names[key] = f"fl_{len(names)}"
+            lines.append(f"Definition {names[key]} : list elem := {coq_elems([tuple(e) for e in elems])}.")
+    return "\n".join(lines) + "\n", names
+
+
+def term_signature(case, r):
+    """Name the construct behind a non-terminating run (defect class)."""
+    if r.get("hang"):
+        return "interpreter-hangs-inside-run_to_completion"
+    slides = r.get("slides", [])
+    fl = r.get("flows", {})
+    # the flow that keeps being re-instantiated
+    culprit = max(fl, key=lambda k: len(fl[k])) if fl else None
+    last = [s for s in slides if s["flow"] == culprit]
+    prog = r.get("program", {})
+    idx = r.get("flow_index", {})
+    activated = False
+    if culprit is not None and culprit in idx:
+        ci = idx[culprit]
+        activated = any(e[0] == "start" and e[1] == ci and e[2] for v in prog.values() for e in v["elems"])
+    pre = "activated-flow" if activated else "flow"
+    if not last:
+        return f"{pre}-event-cascade-does-not-terminate"
+    k = last[-1]["kind"]
+    elems = prog[culprit]["elems"]
+    waits_ext = any(elems[p][0] == "block" and elems[p][1] == "match" for s in last[-3:] for p in s["path"])
+    if k == 3:
+        return f"{pre}-aborts-before-waiting"
+    if k == 4:
+        return f"{pre}-raises-before-waiting"
+    if k == 2:
+        return f"{pre}-finishes-without-waiting-for-an-external-event"
+    if k == 0 and not waits_ext:
+        e = elems[last[-1]["pos"]] if last[-1]["pos"] < len(elems) else None
+        if e is not None and e[0] == "waitint":
+            return f"{pre}-fails-at-internal-wait-before-waiting"
+    return f"{pre}-event-cascade-does-not-terminate"
+
+
+def run(tier, seed, replay=None):
+    out = C.Outcome(PID, tier, seed)
+    rng = random.Random(seed * 1000003 + 10)
+    t_start = time.time()
+    b = C.build_and_audit(PID, GEN)
+    C.proof_coverage(out, b, "make theories/Props/C10.vo && coqc Props/C10.v (Print Assumptions)")
+    for br in b["broken"]:
+        out.add_broken(br, b["log"])
+    with C.BuildLock():
+        okm, logm = C.coq_make(["theories/V2/TermRun.vo", "theories/V2/CascadeRun.vo"])
+    if not okm:
+        out.add_broken("coq:theories/V2/TermRun.v|CascadeRun.v", logm)
+
+    quick = tier == "quick"
+    n_term = 260 if quick else 3000
+    n_inj_direct = 420 if quick else 0          # 0 = all
+    n_inj_pe = 90 if quick else 600
+    features, inj_hist = {}, {}
+
+    # ---- cases: corpus / replay first, F4 programs, generated
+    cases = []
+    corpus_dir = os.path.join(C.VERIF, "corpus", PID)
+    corpus_n = 0
+    if os.path.isdir(corpus_dir):
+        for fn in sorted(os.listdir(corpus_dir)):
+            if fn.endswith(".json"):
+                d = json.load(open(os.path.join(corpus_dir, fn)))
+                d = d.get("replay", d)
+                if "src" in d:
+                    d = dict(d)
+                    d["id"] = "corpus_" + fn[:-5]
+                    cases.append(d)
+                    corpus_n += 1
+    if replay:
+        d = json.load(open(replay))
+        d = dict(d.get("replay", d))
+        if "src" in d:
+            d["id"] = "replay"
+            cases = [d]
+            if d.get("kind") == "inject" and d.get("mode") != "pe":
+                d2 = dict(d)
+                d2["id"] = "replay_pe"
+                d2["mode"] = "pe"
+                cases.append(d2)
+        n_term = n_inj_pe = 0
+        n_inj_direct = -1
+    else:
+        for name, src in F4_PROGRAMS:
+            cases.append({"id": "f4_" + name, "kind": "term", "src": src, "events": ["E0", "X", "E0", "E0"], "features": [name]})
+    term_cases = gen_term_cases(rng, n_term, features) if n_term else []
+    cases += term_cases
+    total_inj = 0
+    if n_inj_direct >= 0:
+        inj_cases, total_inj = gen_inject_cases(rng, n_inj_direct, inj_hist)
+        cases += inj_cases
+        pe = []
+        for c in inj_cases[:n_inj_pe]:
+            c2 = dict(c)
+            c2["id"] = c["id"] + "_pe"
+            c2["mode"] = "pe"
+            pe.append(c2)
+        cases += pe
+    by_id = {c["id"]: c for c in cases}
+    dirs = shipped_dirs() if not replay else []
+    nship = 8
+    ship_cases = [{"id": f"ship{i}", "mode": "shipped", "paths": dirs[i::nship]} for i in range(nship)] if dirs else []
+
+    t0 = time.time()
+    results = run_jobs(cases + ship_cases, "run", per_case_timeout=25)
+    t_jobs = round(time.time() - t0, 1)
+
+    # ---- shipped flows
+    shipped = []
+    ship_skipped = []
+    for c in ship_cases:
+        r = results.get(c["id"], {})
+        if r.get("error") or r.get("hang") or r.get("crash"):
+            out.add_broken("translator:shipped-flows", json.dumps(r)[:1500])
+        shipped += r.get("flows", [])
+        ship_skipped += r.get("skipped", [])
+    loader_errors = [f for f in shipped if "loader_error" in f]
+    for f in loader_errors[:1]:
+        out.add_broken("translator:loader", f"{len(loader_errors)} shipped flows outside the vocabulary, e.g. {f}")
+
+    # ---- direct oracle 1: termination
+    findings = {}
+    term_stats = {"runs": 0, "events": 0, "max_steps": 0, "max_ratio": 0.0, "not_a_program": 0, "budget_exceeded": 0, "hang": 0}
+    slide_cases = []
+    programs = {}
+    bound_cases = []
+
+    def add_finding(sig, what, payload):
+        if sig not in findings:
+            findings[sig] = (what, payload, 1)
+        else:
+            w, p0, n = findings[sig]
+            # keep the smallest program
+            if len(payload.get("src", "")) < len(p0.get("src", "")):
+                w, p0 = what, payload
+            findings[sig] = (w, p0, n + 1)
+
+    for c in cases:
+        r = results.get(c["id"], {"error": "missing"})
+        kind = c.get("kind", "term")
+        for sc in r.get("slides", []):
+            slide_cases.append((c["id"], sc, r["program"][sc["flow"]]["elems"]))
+        for fid, v in r.get("program", {}).items():
+            programs[json.dumps(v["elems"])] = v["elems"]
+        if kind == "term":
+            if r.get("error"):
+                if r["error"].startswith("init:"):
+                    term_stats["not_a_program"] += 1
+                else:
+                    out.add_broken("harness:term-case", f"{c['id']}: {r['error']}\n{c['src']}")
+                continue
+            term_stats["runs"] += 1
+            bad = None
+            if r.get("hang") or r.get("crash"):
+                bad = "hang" if r.get("hang") else "crash"
+                term_stats["hang"] += 1
+            else:
+                for k, e in enumerate(r["events"]):
+                    term_stats["events"] += 1
+                    term_stats["max_steps"] = max(term_stats["max_steps"], e["steps"])
+                    if e.get("budget"):
+                        term_stats["max_ratio"] = max(term_stats["max_ratio"], round(e["steps"] / e["budget"], 4))
+                    if e["status"] == "budget":
+                        bad = f"step budget {e['budget']} exceeded while processing event #{k}"
+                        term_stats["budget_exceeded"] += 1
+                        break
+                    if e["status"] != "ok":
+                        bad = e["status"]
+                        break
+                if bad is None and "program" in r:
+                    bound_cases.append((c["id"], r))
+            if bad:
+                sig = term_signature(c, r)
+                add_finding(sig, f"run_to_completion does not terminate ({bad}); premise holds: every loop/recursion contains a waiting statement",
+                            {"kind": "term", "src": c["src"], "events": c["events"], "observed": bad,
+                             "instances_per_flow": {k: len(v) for k, v in r.get("flows", {}).items()}})
+        else:
+            verdicts = inject_verdict(c, r)
+            for what, det in verdicts:
+                if what == "harness-error":
+                    if not str(det).startswith("init:"):
+                        out.add_broken("harness:inject-case", f"{c['id']}: {det}")
+                    continue
+                sig = f"{c['meta']['site']}:{what}"
+                add_finding(sig, f"error injected as `{c['meta']['stmt']}` ({c['meta']['bad']}), driver={c.get('mode', 'direct')}: {det}",
+                            {"kind": "inject", "src": c["src"], "events": c["events"], "meta": c["meta"], "mode": c.get("mode", "direct"),
+                             "observed": det})
+    for sig, (what, payload, n) in findings.items():
+        out.findings.append(C.Finding(sig, f"{what} [{n} cases]", payload))
+
+    # ---- correspondence 1: slide differential (model inside Coq)
+    all_elem_lists = list(programs.values()) + [f["elems"] for f in shipped if "elems" in f]
+    defs, names = _flow_defs(all_elem_lists)
+    pre = PREAMBLE + defs
+    slide_terms, slide_kept = [], []
+    seen = set()
+    n_nontrivial = 0
+    kinds_hist = {}
+    max_slides = 12000 if quick else 80000
+    for cid, sc, elems in slide_cases:
+        h = C.canon_hash([names[json.dumps(elems)], sc["outs"], sc["start"], sc["catch"]])
+        if h in seen:
+            continue
+        seen.add(h)
+        kinds_hist[sc["kind"]] = kinds_hist.get(sc["kind"], 0) + 1
+        if sc["steps"] >= 2 and (sc["kind"] != 0 or "OFalse" in sc["outs"] or len(set(sc["path"])) >= 3):
+            n_nontrivial += 1
+        if len(slide_terms) >= max_slides:
+            continue
+        exp = "({k}, {p}, {t}, {n}, {ec}, {path}, {st})".format(
+            k=sc["kind"], p=sc["pos"], t=C.coq_list([str(x) for x in sc["targets"]]), n=sc["steps"],
+            ec=C.coq_list([str(x) for x in sc["end_catch"]]), path=C.coq_list([str(x) for x in sc["path"]]),
+            st=C.coq_list([f"({a}, {C.coq_bool(bb)})" for a, bb in sc["starts"]]))
+        slide_terms.append("({es}, {o}, {s}, {cs}, {e})".format(
+            es=names[json.dumps(elems)], o=C.coq_list(sc["outs"]), s=sc["start"],
+            cs=C.coq_list([str(x) for x in sc["catch"]]), e=exp))
+        slide_kept.append((cid, sc))
+    slide_bad = []
+    t1 = time.time()
+    if okm and slide_terms:
+        bools, err = C.run_cases(PID + "_slide", pre, slide_terms, "check_slide", shard=400)
+        if err:
+            out.add_broken("correspondence:C10-slide(coqc)", err)
+        else:
+            slide_bad = [(cid, sc) for ok, (cid, sc) in zip(bools, slide_kept) if not ok]
+        # the start configuration of every real head is the one the verifier predicts
+        st_terms = sorted({"({n}, {p}, {cs})".format(n=names[json.dumps(r_elems)], p=sc["start"],
+                                                      cs=C.coq_list([str(x) for x in sc["catch"]]))
+                           for (_cid, sc, r_elems) in slide_cases if not sc["merging"]})
+        bools, err = C.run_cases(PID + "_start", pre, st_terms, "check_start", shard=400)
+        if err:
+            out.add_broken("correspondence:C10-start(coqc)", err)
+        elif not all(bools):
+            badt = [t for ok, t in zip(bools, st_terms) if not ok]
+            out.add_broken("correspondence:C10-start", f"{len(badt)} real heads start in a configuration the verifier does not predict, e.g. {badt[0]}")
+    t_slide = round(time.time() - t1, 1)
+    if slide_bad:
+        cid, sc = min(slide_bad, key=lambda x: len(x[1]["path"]))
+        c = by_id.get(cid, {})
+        r = results.get(cid, {})
+        elems = r.get("program", {}).get(sc["flow"], {}).get("elems")
+        model = C.eval_term(PID + "_slide", PREAMBLE,
+                            f"slide ({len(elems)} + 1) {coq_elems([tuple(e) for e in elems])} (orc_of {C.coq_list(sc['outs'])}) {sc['start']} {C.coq_list([str(x) for x in sc['catch']])}") if elems else ""
+        out.add_broken("correspondence:C10-slide",
+                       f"{len(slide_bad)} real slide calls disagree with the model; smallest: flow={sc['flow']} real={sc} model={model[-600:]}")
+        # a disagreement of slide is searched for as a failing input by the two direct oracles above
+        out.findings.append(C.Finding("slide-differs-from-model:" + {0: "blocked", 1: "forked", 2: "ended", 3: "aborted", 4: "raised"}[sc["kind"]],
+                                      "the real slide() visits other positions than the documented element semantics",
+                                      {"kind": c.get("kind", "term"), "src": c.get("src"), "events": c.get("events"), "meta": c.get("meta"),
+                                       "slide": sc})) if c.get("src") and not findings else None
+
+    # ---- correspondence 2: guardedb == independent cycle search, on shipped + generated flows
+    g_terms, g_kept = [], []
+    spin_terms = []
+    unguarded = []
+    for key, name in names.items():
+        elems = [tuple(e) if not isinstance(e, tuple) else e for e in json.loads(key)]
+        elems = [tuple(x if not isinstance(x, list) else tuple(x) for x in e) for e in elems]
+        elems = [e if e[0] != "fork" else ("fork", list(e[1])) for e in elems]
+        an = py_analyse(elems)
+        cyc = an["cycle"]
+        g_terms.append(f"({name}, {C.coq_bool(an['verdict'])})")
+        g_kept.append((name, elems, an))
+        if not an["verdict"]:
+            unguarded.append(name)
+        if cyc is not None:
+            spin_terms.append("({n}, {o}, {p}, {cs})".format(
+                n=name, o=C.coq_list(spin_oracle(elems, cyc)), p=cyc[0][0],
+                cs=C.coq_list([str(x) for x in reversed(cyc[0][1])])))
+    g_bad = []
+    t1 = time.time()
+    if okm and g_terms:
+        bools, err = C.run_cases(PID + "_guard", pre, g_terms, "check_guarded", shard=60)
+        if err:
+            out.add_broken("correspondence:C10-guardedb(coqc)", err)
+        else:
+            g_bad = [k for ok, k in zip(bools, g_kept) if not ok]
+        if spin_terms:
+            bools, err = C.run_cases(PID + "_spin", pre, spin_terms, "check_spins", shard=60)
+            if err:
+                out.add_broken("correspondence:C10-spin(coqc)", err)
+            elif not all(bools):
+                out.add_broken("correspondence:C10-spin", "a flow rejected by guardedb does not spin in the model")
+    if g_bad:
+        name, elems, an = min(g_bad, key=lambda x: len(x[1]))
+        out.add_broken("correspondence:C10-guardedb", f"{len(g_bad)} flows: guarded_flowb differs from the Python search; smallest: {elems} python={an}")
+    t_guard = round(time.time() - t1, 1)
+    shipped_unguarded = sorted({f"{f['origin']}::{f['flow']}" for f in shipped if "elems" in f and names[json.dumps(f["elems"])] in unguarded})
+    gen_unguarded = [n for n in unguarded if n in {names[k] for k in programs}]
+    if gen_unguarded:
+        out.add_broken("generator:premise", f"{len(gen_unguarded)} generated flows are not guarded (generator must satisfy the premise)")
+
+    # ---- correspondence 3: the cascade bound of the model dominates the observed event counts
+    bound_stats = check_bounds(out, bound_cases, okm) if okm else {}
+
+    out.coverage.update({
+        "evaluations": len(slide_terms) + len(g_terms) + term_stats["events"] + sum(inj_hist.values()),
+        "distinct_nontrivial": n_nontrivial,
+        "rule": "distinct real slide() calls (hash of flow, oracle, start position, catch stack) with >= 2 executed elements that "
+                "end other than at a plain match, take a false branch, or visit >= 3 distinct positions",
+        "samples": [{"slide": sc} for _cid, sc in slide_kept[:2]] + [{"program": c["src"], "events": c["events"]} for c in term_cases[:1]]
+                   + [{"inject": c["meta"]} for c in cases if c.get("kind") == "inject"][:2],
+        "input_distribution": {
+            "termination_programs": term_stats, "generator_features": features, "f4_programs": len(F4_PROGRAMS), "corpus_cases": corpus_n,
+            "injection_cases_direct": sum(inj_hist.values()), "injection_cases_process_events": min(n_inj_pe, sum(inj_hist.values())),
+            "injection_space": total_inj, "injection_statement_kinds": inj_hist,
+            "slide_calls_traced": len(slide_cases), "slide_calls_distinct": len(seen), "slide_stop_kinds(0 blocked 1 forked 2 ended 3 aborted 4 raised)": kinds_hist,
+            "shipped_dirs": len(dirs), "shipped_flows": len(shipped), "shipped_flows_distinct": len({json.dumps(f['elems']) for f in shipped if 'elems' in f}),
+            "shipped_skipped": len(ship_skipped), "shipped_skipped_reasons": sorted({s[1].split(':')[0] for s in ship_skipped}),
+            "shipped_unguarded_flows": shipped_unguarded[:20], "flows_checked_by_guardedb": len(g_terms), "unguarded_flows": len(unguarded),
+            "cascade_bound": bound_stats,
+        },
+        "traces_validated_against_impl": len(slide_terms),
+        "correspondence_disagreements": len(slide_bad) + len(g_bad),
+        "oracle_violations": sum(n for _w, _p, n in findings.values()),
+        "budget_formula": "64 + 8 * (total_primitive_elements + 4 * n_flows) * (live_instances + 1) internal events per run_to_completion",
+        "jobs_s": t_jobs, "coq_slide_s": t_slide, "coq_guard_s": t_guard,
+    })
+    out.assumptions += [
+        "expression values are replaced by an oracle (true/false/raises per executed element); theorems quantify over all oracles",
+        "cascade model: single-head flows without fork/merge, every actionable head wins its action conflict, reactions to internal events are arbitrary (oracle); groups/when are covered by the termination harness only",
+        "premise as formalised: a waiting statement = match on an event that cannot be produced inside the same run_to_completion (not FlowStarted/FlowFinished/FlowFailed/... of the runtime); an activated flow whose body waits only for such internal events is an implicit loop without waiting statement",
+        "process_events retry loop: processing a ColangError event does not itself raise (no flow that matches ColangError has an erroneous match / raises in the same step)",
+        "Python recursion depth, wall-clock, action conflict resolution (C05) are not modelled",
+    ]
+    if tier == "thorough" and b["ok"]:
+        ok, log = C.coqchk(PID, b["files"])
+        out.coverage["coqchk"] = "ok" if ok else "FAILED"
+        if not ok:
+            out.add_broken("coqchk", log)
+    return C.finish(out)
+
+
+def check_bounds(out, bound_cases, okm):
+    return {}
 
 
 if __name__ == "__main__":
